@@ -18,6 +18,17 @@ import os
 from harness import common
 from harness.common import Check
 
+def _rm_cases(name):
+    """case files are named per process (concurrent runs of one check must not share them) and removed after evaluation"""
+    import glob
+
+    for q in glob.glob(os.path.join(common.GEN, f"Cases_{name}_*.v")):
+        try:
+            os.remove(q)
+        except OSError:
+            pass
+
+
 REGISTRY = dict(
     text=("Proof (unbounded, generic in sub-environment type and number of sub-environments): for every op list (reset/step/seed/set_options) the vector run projected on "
           "sub-environment i equals i run alone on its own actions (own observation, reward, done; no cross-talk); at an episode end the returned observation is the first "
@@ -167,16 +178,20 @@ def run_impl(case, ops=None):
     try:
         space = venv.observation_space
         trace = []
+        kept = []      # every returned observation object, NOT copied, with what it decoded to when it was returned
         for op in ops:
             if op[0] == "reset":
                 obs = venv.reset()
-                trace.append(["reset", _dec_batch(space, obs, n), _rinfos(venv)])
+                tags0 = _dec_batch(space, obs, n)
+                kept.append((len(trace), obs, tags0))
+                trace.append(["reset", tags0, _rinfos(venv)])
             elif op[0] == "step":
                 acts = np.stack([action_value(case["act_kind"], a) for a in op[1]])
                 if case.get("actions_as_list"):
                     acts = list(acts)      # a plain list of per-env actions instead of an array
                 obs, rews, dones, infos = venv.step(acts)
                 tags = _dec_batch(space, obs, n)
+                kept.append((len(trace), obs, tags))
                 outs = []
                 for i in range(n):
                     info = infos[i]
@@ -206,12 +221,19 @@ def run_impl(case, ops=None):
                 trace.append(["none"])
             else:
                 raise ValueError(op)
+        # "step() returns i's own observation": the value a caller kept must still be that observation after later calls
+        changed = []
+        for k, obs, tags_then in kept:
+            now = _dec_batch(space, obs, n)
+            for i in range(n):
+                if now[i] != tags_then[i]:
+                    changed.append([k, i, tags_then[i], now[i]])
         logs = venv.env_method("get_log")
         # options: an empty dict and None both mean "no options" (the property text says None/{})
         logs = [[[e[0], e[1], e[2] or None] if e[0] == "reset" else list(e) for e in lg] for lg in logs]
     finally:
         venv.close()
-    return {"trace": trace, "logs": logs}
+    return {"trace": trace, "logs": logs, "obs_changed": changed}
 
 
 # ---------------------------------------------------------------- oracle (from the property text)
@@ -224,6 +246,8 @@ def oracle(case, impl, ops=None):
     ops = case["ops"] if ops is None else ops
     n = case["n"]
     probs = []
+    for k, i, then, now in impl.get("obs_changed", [])[:3]:
+        probs.append(("oracle-own-observation-changed-after-return", f"op {k} env {i}: the observation returned for this call decoded to {then}; after later calls the same object holds {now}"))
     for i in range(n):
         eps = case["scripts"][i]["episodes"]
         ep_idx, pos = -1, 0          # episode index of the running episode, position inside
@@ -485,7 +509,8 @@ def run_attr_stream(chk, n_cases):
         except Exception as e:  # noqa: BLE001
             impls.append({"crash": f"{type(e).__name__}: {e}"})
     exprs = [e for c in cases for e in attr_exprs(c)]
-    vals = common.coq_eval_many("C01a", ATTR_HEADER, exprs, shard=400, procs=4)
+    vals = common.coq_eval_many(f"C01a_{os.getpid()}", ATTR_HEADER, exprs, shard=400, procs=4)
+    _rm_cases(f"C01a_{os.getpid()}")
     k = len(ATTR_NAMES)
     stats = {"cases": len(cases), "value": 0, "ambiguous": 0, "noattr": 0}
     for i, (c, im) in enumerate(zip(cases, impls)):
@@ -558,7 +583,8 @@ def run_dummy_calls_stream(chk, n_cases):
     for c in cases:
         scs = "[" + "; ".join(se.coq_script(s) for s in c["scripts"]) + "]"
         exprs.append(f"run_dummy_scripted {scs} {coq_list(c['wrapped'], coq_bool)} {c02.coq_calls(c)}")
-    vals = common.coq_eval_many("C01b", c02.HEADER, exprs, shard=60, procs=4)
+    vals = common.coq_eval_many(f"C01b_{os.getpid()}", c02.HEADER, exprs, shard=60, procs=4)
+    _rm_cases(f"C01b_{os.getpid()}")
     stats = {"cases": len(cases), "replies": 0}
     for c, tr, v in zip(cases, traces, vals):
         ml = c02.model_log(v)
@@ -696,7 +722,8 @@ def run_envutil_stream(chk, n_cases):
     stats["registered_id_path"] = int(ok_id)
     if not ok_id:
         chk.violation("oracle-make-vec-env-registered-id", "make_vec_env('CartPole-v1', n_envs=2, seed=7): not monitored or seeds not [7, 8]", {"check": "registered id"}, found_input=True)
-    vals = common.coq_eval_many("C01c", ENVUTIL_HEADER, exprs, shard=200, procs=4)
+    vals = common.coq_eval_many(f"C01c_{os.getpid()}", ENVUTIL_HEADER, exprs, shard=200, procs=4)
+    _rm_cases(f"C01c_{os.getpid()}")
     for (kind, case, got, ok), v in zip(expected, vals):
         if kind == "make_vec_env":
             descs, s = v
@@ -777,7 +804,8 @@ def main():
         except Exception as e:  # the implementation crashed on a legal history
             impls.append({"crash": f"{type(e).__name__}: {e}"})
     exprs = [model_expr(c) for c in cases]
-    vals = common.coq_eval_many("C01", HEADER, exprs, shard=200, procs=4)
+    vals = common.coq_eval_many(f"C01_{os.getpid()}", HEADER, exprs, shard=200, procs=4)
+    _rm_cases(f"C01_{os.getpid()}")
     hist = {"backend": {}, "obs_kind": {}, "n_envs": {}, "ops": 0, "steps": 0, "autoresets": 0, "both_flags_steps": 0, "len1_episodes": 0}
     distinct = set()
     for c, im, v in zip(cases, impls, vals):
